@@ -18,7 +18,7 @@ from ref import broadcast as B
 ID = "C06"
 LEVEL = "exploration"
 RULE = (
-    "lengths 0..400 x 7 leading-byte variants (incl. magic + own length) x 3 fills; captures +-1..3 bytes; model codes (thorough: all 65,536 x 3 frame "
+    "lengths 0..400 x 9 leading-byte variants (incl. magic + own length, magic shifted by one byte, magic only later in the frame) x 4 fills (00, ff, 0a, capture bytes); captures +-1..3 bytes; model codes (thorough: all 65,536 x 3 frame "
     "lengths; quick: known codes, their 1-bit neighbours, every 61st) each sent as one real datagram and observed alone. "
     "non-trivial = the datagram reached datagram_received (one loop iteration consumed it) and the four counters were read; "
     "distinct by datagram bytes."
@@ -30,7 +30,7 @@ ASSUMPTIONS = [
 
 LENS_OK = (165, 168, 159)
 KNOWN = {v[0] for v in B.TYPES.values()}
-LEADS = {"magic": b"\xfe\xf0", "magic-len": None, "fe-only": b"\xfe\x00", "swapped": b"\xf0\xfe", "fef1": b"\xfe\xf1", "zeros": b"\x00\x00", "none": b""}
+LEADS = {"magic": b"\xfe\xf0", "magic-len": None, "shifted": b"\x00\xfe\xf0", "late-magic": b"\x00\x00" + bytes(72) + b"\xfe\xf0", "fe-only": b"\xfe\x00", "swapped": b"\xf0\xfe", "fef1": b"\xfe\xf1", "zeros": b"\x00\x00", "none": b""}
 TEMPLATES = {165: B.HEATER_T, 168: B.BREEZE_T, 159: B.RUNNER_T}
 
 
@@ -39,6 +39,8 @@ def fill_bytes(kind, n):
         return bytes(n)
     if kind == "ff":
         return b"\xff" * n
+    if kind == "lf":
+        return b"\x0a" * n
     cap = B.HEATER_T
     return (cap * (n // len(cap) + 1))[:n]
 
@@ -51,7 +53,7 @@ def all_cases(tier):
     cs = []
     for n in range(0, 401 if tier == "quick" else 1501):
         for lead in LEADS:
-            for fill in ("00", "ff", "capture"):
+            for fill in ("00", "ff", "lf", "capture"):
                 cs.append({"kind": "shape", "n": n, "lead": lead, "fill": fill})
     for L, t in TEMPLATES.items():
         for d in (1, 2, 3):
